@@ -68,10 +68,27 @@ def _setup():
 # generation
 
 def _interesting_start(rng, ground):
-    kind = rng.choice(["nl", "nl", "equator", "lon0", "lon90", "anti", "anti", "high", "rand", "rand", "eq_anti"])
+    kind = rng.choice(["nl", "nl", "equator", "lon0", "lon90", "anti", "anti", "high", "rand", "rand", "eq_anti", "edge", "edge"])
     lat = rng.uniform(-80, 80)
     lon = rng.uniform(-180, 180)
-    if kind == "nl":
+    if kind == "edge":
+        # on (or a few CPR bins from) a CPR zone edge, where the transmitted
+        # 17-bit field is 0 / wraps: latitude zone edge, longitude zone edge or both
+        i = rng.choice([0, 1])
+        span = 90.0 if ground else 360.0
+        nb = 19 if ground else 17
+        dlat = span / (60 - i)
+        binlat = (360.0 / (60 - i)) / (1 << nb)
+        which = rng.choice(["lat", "lon", "both"])
+        if which in ("lat", "both"):
+            lat = dlat * rng.randint(-int(80 / dlat), int(80 / dlat)) + binlat * rng.choice([0, 0, -1, 1, -3, 2, -0.4])
+        if which in ("lon", "both"):
+            ni = max(R.NL(lat) - i, 1)
+            dlon = span / ni
+            binlon = (360.0 / ni) / (1 << nb)
+            lon = dlon * rng.randint(-int(179 / dlon), int(179 / dlon)) + binlon * rng.choice([0, 0, -1, 1, -3, 2, -0.4])
+            lon = ((lon + 180) % 360) - 180
+    elif kind == "nl":
         tl = rng.choice(R.NL_LATS)
         lat = rng.choice([-1, 1]) * (tl + rng.uniform(-0.05, 0.05))
     elif kind == "equator":
@@ -104,6 +121,11 @@ def _gen_aircraft(rng, idx, T, used, fast=False):
     legs = []
     t = 0.0
     ground = starts_ground
+    if kind == "edge" and ground:
+        # creep over the edge so that several squitters carry the wrapping bins
+        legs.append([rng.choice([20, 60]), rng.choice([0, 0.1, 0.1, 1.0, 3]), 0, 1, 0.0, 0.0])
+        hdg = rng.choice([0, 90, 180, 270, 45])
+        t += legs[0][0]
     alt = 0.0 if ground else rng.choice([1000, 5000, 12000, 35000, 41000])
     while t < T:
         dur = rng.choice([10, 20, 40, 80, 150, 300])
@@ -182,6 +204,9 @@ def gen_world(rw, rf, T, budget, base=None, tmode=None, n_clean=None, outage=Fal
     rcv = None
     if rw.random() < 0.85:
         a = rw.choice(acs)
+        edgy = [x for x in acs if x["start_kind"] == "edge" and x["traj"]["legs"][0][3] == 1]
+        if edgy and rw.random() < 0.7:
+            a = edgy[0]
         rcv = [a["traj"]["lat"] + rw.uniform(-0.3, 0.3), ((a["traj"]["lon"] + rw.uniform(-0.3, 0.3) + 180) % 360) - 180]
         rcv[0] = max(-89.0, min(89.0, rcv[0]))
     # only aircraft starting near the receiver may have ground legs (45 NM rule)
@@ -192,6 +217,35 @@ def gen_world(rw, rf, T, budget, base=None, tmode=None, n_clean=None, outage=Fal
             for leg in a["traj"]["legs"]:
                 if leg[3] == 1:
                     leg[1], leg[3], leg[4], leg[5] = max(leg[1], 90), 0, 1000.0, 0.0
+    # ... and every ground leg must stay within the surface format's range of
+    # the receiver (45 NM; 38 NM used) for its whole duration: an aircraft that
+    # flew away and lands elsewhere is out of the receiver's surface coverage
+    if rcv is not None:
+        for a in acs:
+            for _ in range(6):
+                tr = W.Traj(a["traj"])
+                bad = None
+                tcur = 0.0
+                for li, leg in enumerate(a["traj"]["legs"]):
+                    n = max(1, int(round(leg[0] / W.DT)))
+                    if leg[3] == 1:
+                        for k in range(0, n + 1, 4):
+                            la, lo = tr.pos(tcur + k * W.DT)
+                            dn = math.hypot((la - rcv[0]) * 60.0, W.lon_diff(lo, rcv[1]) * 60.0 * math.cos(math.radians(la)))
+                            if dn > 38.0:
+                                bad = li
+                                break
+                    if bad is not None:
+                        break
+                    tcur += n * W.DT
+                if bad is None:
+                    break
+                leg = a["traj"]["legs"][bad]
+                leg[1], leg[3], leg[4], leg[5] = max(leg[1], 90), 0, 1000.0, 0.0
+            else:
+                for leg in a["traj"]["legs"]:
+                    if leg[3] == 1:
+                        leg[1], leg[3], leg[4], leg[5] = max(leg[1], 90), 0, 1000.0, 0.0
     msgs = []  # (t_rel, seq, kind 'a'|'c', hex, icao)
     seq = 0
     per_ac_budget = max(40, budget // (n_clean + 1))
@@ -199,19 +253,19 @@ def gen_world(rw, rf, T, budget, base=None, tmode=None, n_clean=None, outage=Fal
         tr = W.Traj(a["traj"])
         style = rw.choice(["fast", "fast", "medium", "sparse", "parity_runs"])
         if outage:
-            style = rw.choice(["medium", "sparse"])
-        p_loss = rf.choice([0.0, 0.0, 0.1, 0.3, 0.6])
+            style = "outage"   # every 3-9 s: never silent long enough to be evicted
+        p_loss = rf.choice([0.0, 0.0, 0.1, 0.3, 0.6]) if not outage else rf.choice([0.0, 0.1])
         p_dup = rf.choice([0.0, 0.0, 0.05, 0.2])
         gaps = []
-        for _ in range(rf.choice([0, 0, 1, 2, 3])):
+        for _ in range(rf.choice([0, 0, 1, 2, 3]) if not outage else 0):
             g0 = rf.uniform(0, T)
             gaps.append((g0, g0 + rf.choice(GAPS)))
         # position-only outage: the position squitters are lost for a long time
         # while other messages keep the aircraft listed
         pos_out = None
         if outage or rf.random() < 0.1:
-            o0 = rf.uniform(0, T * 0.4)
-            pos_out = (o0, o0 + rf.choice([150, 179, 181, 200, 400] + ([700, 1000, 1300] if outage else [])))
+            o0 = rf.uniform(0, T * 0.4) if not outage else rf.uniform(20, 250)
+            pos_out = (o0, o0 + (rf.choice([150, 179, 181, 200, 400]) if not outage else rf.choice([700, 1150, 1300, 1500])))
         a["faults"] = {"p_loss": p_loss, "p_dup": p_dup, "gaps": gaps, "style": style, "pos_outage": pos_out}
         ver = rw.choice([0, 1, 2, 2, None])
         t = rw.uniform(0, min(30, T / 3))
@@ -264,6 +318,8 @@ def gen_world(rw, rf, T, budget, base=None, tmode=None, n_clean=None, outage=Fal
                 t += rw.uniform(0.3, 4.0)
             elif style == "sparse":
                 t += rw.choice([2, 5, 8, 9.8, 10.2, 15, 40, 70])
+            elif style == "outage":
+                t += rw.uniform(3.0, 9.0)
             else:
                 t += rw.uniform(0.3, 3.0)
     # noisy identities and Comm-B replies for unknown addresses
@@ -293,8 +349,8 @@ def generate(run_seed, tier):
     T = rw.choice([60, 120, 200, 300] + ([600, 900] if long_run else []))
     outage = rw.random() < 0.06   # long sparse run with a long position-only outage
     if outage:
-        T = rw.choice([1200, 1800])
-    wd = gen_world(rw, rf, T, 1500 if tier != "quick" else 700, outage=outage)
+        T = 1800
+    wd = gen_world(rw, rf, T, 1500 if tier != "quick" else 700, outage=outage, n_clean=rw.choice([1, 1, 2]) if outage else None)
     base, tmode, rcv, acs, noisy, msgs = wd["base"], wd["tmode"], wd["receiver"], wd["aircraft"], wd["noisy"], wd["msgs"]
     # batching into calls
     bstyle = rb.choice(["single", "single", "small", "small", "large", "all", "mixed"])
@@ -457,6 +513,13 @@ def execute(sc, keep_log=False):
             nontrivial = True
         stats.c["probe.start_" + a.get("start_kind", "?")] += 1
     prev_keys = set()
+    listed_since = {}
+    outage_seen = set()
+    outages = {}
+    for a in sc["aircraft"]:
+        po = (a.get("faults") or {}).get("pos_outage")
+        if po and po[1] - po[0] >= 1100:
+            outages[a["icao"]] = po
     for ci, call in enumerate(sc["calls"]):
         n_calls += 1
         now = call["now"]
@@ -482,6 +545,12 @@ def execute(sc, keep_log=False):
         if violations:
             break
         keysets = [set(str(k).upper() for k in t.keys()) for t in tables]
+        for ku in keysets[0]:
+            if ku not in listed_since:
+                listed_since[ku] = now
+        for ku in list(listed_since):
+            if ku not in keysets[0]:
+                del listed_since[ku]
         call_labels = []
         for ti in (0, 1):
             models[ti].feed(call)
@@ -534,6 +603,10 @@ def execute(sc, keep_log=False):
             checked[ku] = sig
             tl, tn = tr.pos(tpos - base)
             stats.c["position_updates_checked"] += 1
+            po = outages.get(ku)
+            if po and tpos - base >= po[1] and listed_since.get(ku, 1e99) <= base + po[0] and ku not in outage_seen:
+                outage_seen.add(ku)
+                stats.c["probe.position_update_after_outage_over_1100s_while_listed"] += 1
             elat = abs(lat - tl)
             elon = W.lon_diff(lon, tn)
             if not (elat <= 0.001 and elon <= 0.001):
@@ -577,6 +650,7 @@ def execute(sc, keep_log=False):
             stats.c["label." + x] += 1
     if probe["ref"] or probe["pair_ok"] or any("evict" in l or "grey" in l for l in labels_run):
         nontrivial = True
+
     # collapse runs of identical labels so the signature is the abstract history
     comp = []
     for l in labels_run:
